@@ -12,7 +12,11 @@ Open Scope Z_scope.
 Lemma bridge_check_values i : gen_check_values i = check_values i.
 Proof.
   unfold gen_check_values, check_values, finish_index.
-  destruct i as [z|b|ns|ns| |l|a b s| ]; cbn [as_index as_int as_seq pd_int64index]; try reflexivity.
+  destruct i as [z|b|ns|ns| |l|a b s| ]; cbn [as_index as_int as_seq]; try reflexivity;
+    (* shape after the proposed fix for F-C02-1: an explicit string test before the coercion *)
+    try (match goal with |- context [seq_has_str ?s] =>
+           destruct (seq_has_str s) eqn:E; [rewrite (seq_has_str_err s E)|] end;
+         cbn [pd_int64index]; reflexivity).
 Qed.
 
 Lemma bridge_init i r : gen_init i r = fh_init i r.
